@@ -478,6 +478,10 @@ func scenario(name string, withB bool) *netctl.Scenario {
 					st.mu.Lock()
 					st.b = b
 					st.mu.Unlock()
+					// M notices without waiting for its next heartbeat (public
+					// API); the heartbeat-driven discovery is reached by "tick".
+					t.Step("M-force-rebalance")
+					st.cl.ForceRebalance()
 				})
 			}
 		},
@@ -496,16 +500,15 @@ func final(x *netctl.Exec, st *state) {
 	// After the last deviation the environment is well behaved: every call
 	// must finish (virtual time; commits retry for at most 30 s).
 	deadline := time.Now().Add(3 * time.Minute)
-	for time.Now().Before(deadline) {
+	settled := func() bool {
 		select {
 		case <-st.polled:
 		default:
-			time.Sleep(100 * time.Millisecond)
-			continue
+			return false
 		}
-		if !st.pollOK || (x.ThreadsDone() && st.allCallsDone()) {
-			break
-		}
+		return !st.pollOK || (x.ThreadsDone() && st.allCallsDone())
+	}
+	for !settled() && time.Now().Before(deadline) {
 		time.Sleep(100 * time.Millisecond)
 	}
 	select {
